@@ -230,16 +230,16 @@ Lemma strip_flat_block : forall t p body e c,
   strip (flat_node (Block t p body e c)) = strip [t] ++ strip (flatten body) ++ strip [close_of t].
 Proof. intros. rewrite flat_node_block. change (t :: flatten body ++ [close_of t]) with ([t] ++ flatten body ++ [close_of t]). rewrite !strip_app. reflexivity. Qed.
 
-Lemma Ext_rpx_body : forall o l in_calc prev pend st,
-  shaped l = true -> w_using_low st = false -> Ext o (strip (flatten l)) st (rpx_body o in_calc l prev pend st).
+Lemma Ext_rpx_body : forall o l in_calc prev st,
+  shaped l = true -> w_using_low st = false -> Ext o (strip (flatten l)) st (rpx_body o in_calc l prev st).
 Proof.
   intros o l.
   remember (nodes_size l) as n eqn:Hn. revert l Hn.
   induction n as [n IHn] using (well_founded_induction Wf_nat.lt_wf).
-  intros l Hn. destruct l as [|x r]; intros in_calc prev pend st Hs H; [apply Ext_refl; exact H|].
+  intros l Hn. destruct l as [|x r]; intros in_calc prev st Hs H; [apply Ext_refl; exact H|].
   cbn [rpx_body]. rewrite strip_flat_cons.
   destruct (shaped_cons _ _ Hs) as [Hsx Hsr].
-  assert (Hr : forall ic pv pd s, w_using_low s = false -> Ext o (strip (flatten r)) s (rpx_body o ic r pv pd s)).
+  assert (Hr : forall ic pv s, w_using_low s = false -> Ext o (strip (flatten r)) s (rpx_body o ic r pv s)).
   { intros. eapply (IHn (nodes_size r)); [|reflexivity|exact Hsr|assumption]. subst n. apply size_tail. }
   destruct (is_comment (node_tok x)) eqn:Ec.
   { destruct x as [t p|t p b e c]; cbn [node_tok] in Ec.
@@ -263,18 +263,18 @@ Proof.
       * eapply (Ext_using_low o); apply Ext_dim; exact H.
       * destruct (is_plus_minus (first_noncomment r) || is_plus_minus prev); [eapply (Ext_using_low o); apply (Ext_tok_at o st (TWs sp)); exact H | exact H].
   - rewrite strip_flat_block.
-    assert (E1 : Ext o (strip [open]) st (tok_at st open (or_pos pend p) None)) by (apply Ext_tok_at; exact H).
-    assert (E2 : Ext o (strip (flatten body)) (tok_at st open (or_pos pend p) None)
-                       (rpx_body o (is_calc_fn open) body None None (tok_at st open (or_pos pend p) None))).
+    assert (E1 : Ext o (strip [open]) st (tok_at st open p None)) by (apply Ext_tok_at; exact H).
+    assert (E2 : Ext o (strip (flatten body)) (tok_at st open p None)
+                       (rpx_body o (child_calc in_calc open) body None (tok_at st open p None))).
     { eapply (IHn (nodes_size body)); [subst n; apply size_body | reflexivity | apply (shaped_blk _ _ _ _ _ _ Hs) | eapply (Ext_using_low o); exact E1]. }
-    assert (E3 : Ext o (strip [close_of open]) (rpx_body o (is_calc_fn open) body None None (tok_at st open (or_pos pend p) None))
-                       (tok_at (rpx_body o (is_calc_fn open) body None None (tok_at st open (or_pos pend p) None))
-                               (close_of open) (or_pos pend p) None)).
+    assert (E3 : Ext o (strip [close_of open]) (rpx_body o (child_calc in_calc open) body None (tok_at st open p None))
+                       (tok_at (rpx_body o (child_calc in_calc open) body None (tok_at st open p None))
+                               (close_of open) p None)).
     { apply Ext_tok_at. eapply (Ext_using_low o); exact E2. }
     cbn [node_pos].
     assert (E123 : Ext o (strip [open] ++ strip (flatten body) ++ strip [close_of open]) st
-                     (tok_at (rpx_body o (is_calc_fn open) body None None (tok_at st open (or_pos pend p) None))
-                             (close_of open) (or_pos pend p) None)).
+                     (tok_at (rpx_body o (child_calc in_calc open) body None (tok_at st open p None))
+                             (close_of open) p None)).
     { eapply Ext_trans; [exact E1|]. eapply Ext_trans; [exact E2 | exact E3]. }
     eapply Ext_trans; [exact E123|].
     apply Hr. exact (Ext_using_low _ _ _ _ E3).
@@ -289,16 +289,16 @@ Proof.
   apply (Ext_tok_sp o st (TWs sp) p None H).
 Qed.
 
-Lemma Ext_cn_body : forall o l lead ic hw pend st,
-  shaped l = true -> w_using_low st = false -> Ext o (strip (flatten l)) st (cn_body o l lead ic hw pend st).
+Lemma Ext_cn_body : forall o l lead ic hw st,
+  shaped l = true -> w_using_low st = false -> Ext o (strip (flatten l)) st (cn_body o l lead ic hw st).
 Proof.
   intros o l.
   remember (nodes_size l) as n eqn:Hn. revert l Hn.
   induction n as [n IHn] using (well_founded_induction Wf_nat.lt_wf).
-  intros l Hn. destruct l as [|x r]; intros lead ic hw pend st Hs H; [apply Ext_refl; exact H|].
+  intros l Hn. destruct l as [|x r]; intros lead ic hw st Hs H; [apply Ext_refl; exact H|].
   cbn [cn_body]. rewrite strip_flat_cons.
   destruct (shaped_cons _ _ Hs) as [Hsx Hsr].
-  assert (Hr : forall a b c d s, w_using_low s = false -> Ext o (strip (flatten r)) s (cn_body o r a b c d s)).
+  assert (Hr : forall a b c s, w_using_low s = false -> Ext o (strip (flatten r)) s (cn_body o r a b c s)).
   { intros. eapply (IHn (nodes_size r)); [|reflexivity|exact Hsr|assumption]. subst n. apply size_tail. }
   destruct (is_comment (node_tok x)) eqn:Ec.
   { destruct x as [t p|t p b e c]; cbn [node_tok] in Ec;
@@ -309,7 +309,7 @@ Proof.
     destruct x as [t p|t p b e c]; cbn [node_tok] in Ew;
       [|destruct (shaped_blk _ _ _ _ _ _ Hs) as [Ho _]; destruct (open_ok_not_wsc _ Ho) as [_ [_ Hc]]; rewrite Hc in Ew; discriminate].
     cbn [flat_node]. rewrite (strip_ws_tok _ Ew). apply Hr; exact H. }
-  set (pp := or_pos pend (node_pos x)).
+  set (pp := node_pos x).
   set (st0 := if is_curly (node_tok x) || is_ws (node_tok x) then st
               else if hw then tok_sp st (TWs sp) pp None else st).
   assert (H0 : Ext o [] st st0) by (apply Ext_space; exact H).
@@ -324,10 +324,10 @@ Proof.
     + rewrite (strip_ws_tok (TWs s) eq_refl). apply Hr. exact U0.
   - cbn [fst snd]. rewrite strip_flat_block.
     assert (E1 : Ext o (strip [open]) st0 (tok_at st0 open pp None)) by (apply Ext_tok_at; exact U0).
-    set (st2 := if is_func open then rpx_body o (is_calc_fn open) body None None (tok_at st0 open pp None)
-                else cn_body o body true false false None (tok_at st0 open pp None)).
+    set (st2 := if is_math_fn open then rpx_body o true body None (tok_at st0 open pp None)
+                else cn_body o body true false false (tok_at st0 open pp None)).
     assert (E2 : Ext o (strip (flatten body)) (tok_at st0 open pp None) st2).
-    { unfold st2. destruct (is_func open).
+    { unfold st2. destruct (is_math_fn open).
       - apply Ext_rpx_body; [apply (shaped_blk _ _ _ _ _ _ Hs) | eapply (Ext_using_low o); exact E1].
       - eapply (IHn (nodes_size body)); [subst n; apply size_body | reflexivity | apply (shaped_blk _ _ _ _ _ _ Hs) | eapply (Ext_using_low o); exact E1]. }
     assert (E3 : Ext o (strip [close_of open]) st2 (tok_at st2 (close_of open) pp None)).
@@ -371,22 +371,22 @@ Proof.
   - right. rewrite nodes_size_cons. pose proof (node_size_pos x). lia.
 Qed.
 
-Lemma Ext_qr_loop : forall o l ic hw pend st,
+Lemma Ext_qr_loop : forall o l ic hw st,
   shaped l = true -> w_using_low st = false ->
-  Consumes o l (fst (qr_loop o l ic hw pend st)) st (snd (qr_loop o l ic hw pend st)).
+  Consumes o l (fst (qr_loop o l ic hw st)) st (snd (qr_loop o l ic hw st)).
 Proof.
-  intros o l. induction l as [|x r IH0]; intros ic hw pend st Hs H.
+  intros o l. induction l as [|x r IH0]; intros ic hw st Hs H.
   { cbn [qr_loop fst snd]. exists []. split; [reflexivity|]. split; [apply Ext_refl; exact H | left; reflexivity]. }
   cbn [qr_loop].
   destruct (shaped_cons _ _ Hs) as [Hsx Hsr].
-  assert (IH : forall ic hw pend st, w_using_low st = false ->
-               Consumes o r (fst (qr_loop o r ic hw pend st)) st (snd (qr_loop o r ic hw pend st))).
+  assert (IH : forall ic hw st, w_using_low st = false ->
+               Consumes o r (fst (qr_loop o r ic hw st)) st (snd (qr_loop o r ic hw st))).
   { intros. apply IH0; assumption. }
   destruct (is_comment (node_tok x)) eqn:Ec.
   { destruct x as [t p|t p b e c]; cbn [node_tok] in Ec;
       [|destruct (shaped_blk _ _ _ _ _ _ Hs) as [Ho _]; destruct (open_ok_not_wsc _ Ho) as [_ [Hc _]]; rewrite Hc in Ec; discriminate].
     eapply Consumes_cons; [|apply IH; exact H]. cbn [flat_node]. rewrite (strip_comment_tok _ Ec). apply Ext_refl; exact H. }
-  set (pp := or_pos pend (node_pos x)).
+  set (pp := node_pos x).
   set (st0 := if is_curly (node_tok x) || is_ws (node_tok x) then st
               else if hw then tok_sp st (TWs sp) pp None else st).
   assert (H0 : Ext o [] st st0) by (apply Ext_space; exact H).
@@ -503,7 +503,7 @@ Proof.
     assert (A1 : Ext o (strip [TCurly]) st (tok_at st1 TCurly p None)).
     { apply (Ext_from_set_stack o _ st _ (w_stack st ++ [segment_since (cur_out st) mark])). apply Ext_tok_at. exact U1. }
     set (st3 := if contain then rec body endp (tok_at st1 TCurly p None)
-                else rpx_body o false body None None (tok_at st1 TCurly p None)).
+                else rpx_body o false body None (tok_at st1 TCurly p None)).
     assert (A2 : Ext o (strip (flatten body)) (tok_at st1 TCurly p None) st3).
     { unfold st3. destruct contain.
       - apply Hrec; [apply size_body | exact Hsb | eapply (Ext_using_low o); exact A1].
